@@ -88,6 +88,7 @@ class SW(object):
         self.n0 = len(instr.TRACKED)
         self.b = stacks.build(ctx, spec)
         self.me, self.top = self.b.base, self.b.top
+        self.executors = [e for e in self.b.executors if e is not self.b.base]
         self.threads = [t for t in instr.TRACKED[self.n0:]]
         self.futs = []
         self.parked = None
@@ -187,17 +188,26 @@ class SW(object):
                 res.violation("base-not-shut-down-at-return", "%s: shutdown() returned before the base executor was shut down" % where)
             if wait and p["alive"] and concurrent_shutdowns == 1:
                 res.violation("worker-alive-after-wait", "%s: shutdown(wait=True) returned while %s still alive" % (where, p["alive"]))
-        # submit afterwards refuses
-        try:
-            self.top.submit(self.fn)
-            res.violation("submit-after-shutdown-accepted", "%s: submit() after shutdown() returned a future" % where)
-        except RuntimeError as e:
-            if str(e) != MSG:
-                res.violation("submit-after-shutdown-message", "%s: submit() after shutdown raised RuntimeError(%r)" % (where, str(e)))
-        except instr.DeadlockBroken:
-            raise
-        except BaseException as e:
-            res.violation("submit-after-shutdown-wrong-error/%s" % type(e).__name__, "%s: submit() after shutdown raised %r" % (where, e))
+        # submit afterwards refuses - through every entry point that submits (on every executor of the stack that was
+        # shut down by this call, i.e. all of them)
+        entries = [("submit", lambda: self.top.submit(self.fn))]
+        for ex in getattr(self, "executors", None) or [self.top]:
+            if hasattr(ex, "submit_retry"):
+                entries.append(("submit_retry", lambda ex=ex: ex.submit_retry(instr.ME.retry.RetryPolicy(), self.fn)))
+            if hasattr(ex, "submit_timeout"):
+                entries.append(("submit_timeout", lambda ex=ex: ex.submit_timeout(5.0, self.fn)))
+        for ename, entry in entries:
+            try:
+                entry()
+                res.violation("submit-after-shutdown-accepted" + ("" if ename == "submit" else "/" + ename),
+                              "%s: %s() after shutdown() returned a future" % (where, ename))
+            except RuntimeError as e:
+                if str(e) != MSG:
+                    res.violation("submit-after-shutdown-message", "%s: %s() after shutdown raised RuntimeError(%r)" % (where, ename, str(e)))
+            except instr.DeadlockBroken:
+                raise
+            except BaseException as e:
+                res.violation("submit-after-shutdown-wrong-error/%s" % type(e).__name__, "%s: %s() after shutdown raised %r" % (where, ename, e))
         # repeated shutdown harmless
         n = len(self.me.shutdowns)
         try:
